@@ -224,6 +224,23 @@ func loadImpl(a map[string]any) (res any) {
 			}
 		}
 	}
+	// … and the Metablock wrapper: signing such content fails and attaches no signature
+	// (seeded change c11-legacy-sign-swallows-canonical-error)
+	out["legacy_refusal"] = nil
+	if link, ok := md.GetPayload().(intoto.Link); ok {
+		bad := link
+		bad.ByProducts = map[string]interface{}{"frac": 0.5}
+		mb := &intoto.Metablock{Signed: bad}
+		err := mb.Sign(dummyEdKey)
+		switch {
+		case err == nil:
+			out["legacy_refusal"] = "signed"
+		case len(mb.Signatures) > 0:
+			out["legacy_refusal"] = "refused-but-signature-added"
+		default:
+			out["legacy_refusal"] = "refused-unsigned"
+		}
+	}
 	// SetPayload -> (sign with a dummy key) -> Dump -> LoadMetadata
 	env := &intoto.Envelope{}
 	if err := env.SetPayload(md.GetPayload()); err != nil {
